@@ -207,18 +207,18 @@ var specs = map[string]Spec{
 		MaxSamples:    3,
 	},
 	"C08": {
-		Engine: "routesim", Run: "^(TestLifecycle|TestLifecycleStress)$", Race: true,
+		Engine: "routesim", Run: "^(TestLifecycle|TestLifecycleStress|TestManyReceivers)$", Race: true,
 		RaceViolation: regexp.MustCompile(`shardManagerImpl\)\.(addLocalShard|removeLocalShard|UnregisterShard|RegisterShard|GetLocalShards|SetRemoteSendChan|RemoveRemoteSendChan|GetRemoteSendChan|SetLocalAckChan|RemoveLocalAckChan|forceRemoveLocalAckChan|GetLocalAckChan|RegisterActiveReceiver|UnregisterActiveReceiver|GetActiveReceiver|SetLocalReceiverCancelFunc|RemoveLocalReceiverCancelFunc|GetLocalReceiverCancelFunc|NodeMeta)\(\)[^\n]*\n[^\n]*\n(?s:.*)runtime\.map`),
 		QuickShards:   16, ThoroughShards: 16, QuickWatchdog: 10 * time.Minute, ThoroughWatchdog: 90 * time.Minute,
 		MaxProcs:    []int{16, 16, 8, 4},
 		Level:       "exploration",
-		LevelText:   "Successive incarnations of one shard's stream are opened against the real routing handlers with every kind of overlap (also with a first incarnation whose peer never reads while a source has 130 tasks for it, so that a deliverer sits blocked on the OLD incarnation's full channel while the registration is replaced and the old channel is then closed) (while the old one is healthy, right after its cancellation, while its unwinding is parked by the probe logger at each of its cleanup log points, after it returned; chains of 2-4 incarnations) in virtual time, then in real threads under -race (old incarnation's unregister against the new one's register, and whole-handler overlap rounds). At quiescence with the newest incarnation live the oracle reads the registry through the exported API (ownership, delivery channel, ack channel, receiver cancel function, active receiver), sends a marked probe task and a probe ack through the shard manager and checks they reach the newest stream / a live consumer, and checks that a freshly registered target gets a watermark replay from every live receiver; after all streams end nothing may remain registered and no goroutine of the proxy may be left. A process death is attributed to the running case; race reports on the shard/channel maps are violations.",
+		LevelText:   "Successive incarnations of one shard's stream are opened against the real routing handlers with every kind of overlap (also: once everything is quiet, one more re-open while the previous incarnation is still registered - what the new stream receives at once can only be the replay of the live receivers' last watermarks; a world with 104 / 130 shards per cluster in which a re-established target stream has more live receivers replaying their watermark than its delivery channel has slots; and a first incarnation whose peer never reads while a source has 130 tasks for it, so that a deliverer sits blocked on the OLD incarnation's full channel while the registration is replaced and the old channel is then closed) (while the old one is healthy, right after its cancellation, while its unwinding is parked by the probe logger at each of its cleanup log points, after it returned; chains of 2-4 incarnations) in virtual time, then in real threads under -race (old incarnation's unregister against the new one's register, and whole-handler overlap rounds). At quiescence with the newest incarnation live the oracle reads the registry through the exported API (ownership, delivery channel, ack channel, receiver cancel function, active receiver), sends a marked probe task and a probe ack through the shard manager and checks they reach the newest stream / a live consumer, and checks that a freshly registered target gets a watermark replay from every live receiver; after all streams end nothing may remain registered and no goroutine of the proxy may be left. A process death is attributed to the running case; race reports on the shard/channel maps are violations.",
 		LevelNote:   "Probe parking reaches only the code's own log points; lock windows without a log call are reached by real-thread stress with some probability per round (reported as rounds run), not by construction. Single proxy instance (intra-proxy routing of C08's clauses is not modelled).",
 		Technique:   "runtime monitor: registry-state and behavioural-probe oracles at quiescent points of overlapping stream incarnations (virtual-time probe parking + real-thread stress), goroutine census, race detector on the registration maps",
 		DesignRef:   "DESIGN.md §4 C08",
 		Rule:        "cases = overlap kind x timing (single re-opens, all kinds) + seeded chains of 2-3 re-opens + per-child stress blocks; distinct = distinct (overlap sequence, timings) tuples; all non-trivial (each opens at least two incarnations)",
 		Assumptions: routeAssumptions,
-		QuickFloors: map[string]int64{"overlap_cases": 150, "register_race_rounds": 50000, "overlap_rounds": 1000, "deliveries_that_hit_a_closed_channel": 1},
+		QuickFloors: map[string]int64{"overlap_cases": 150, "register_race_rounds": 50000, "overlap_rounds": 1000, "deliveries_that_hit_a_closed_channel": 1, "quiet_reopen_replays_seen": 20, "live_receivers_at_reopen": 200},
 		MaxSamples:  2,
 	},
 	"C12": {
